@@ -141,6 +141,27 @@ def record_plan(cfg):
         except BaseException as exc:
             ok = 0
             meta["analyzer_exception"] = f"({how}) {type(exc).__name__}: {exc}"
+    # a band whose edges ARE plan frequencies (taken from the full plan): the restricted plan is that slice of the full plan, field by field
+    if ok and nf >= 4 and N <= 5000:
+        j1, j2 = 1, nf - 2
+        try:
+            ab = speckit.SpectrumAnalyzer(np.zeros(N), fs, olap=cfg["on"] / cfg["od"], bmin=cfg["bn"] / cfg["bd"], Lmin=cfg["Lmin"], Jdes=cfg["Jdes"],
+                                          Kdes=cfg["Kdes"], scheduler=ANALYZER_NAME[cfg["sched"]], band=(float(f[j1]), float(f[j2])))
+            pb = ab.plan()
+            if int(pb["nf"]) != j2 - j1 + 1:
+                same = 0
+                meta["analyzer_plan_differs_in"] = f"band slice: {pb['nf']} bins, expected {j2 - j1 + 1}"
+            else:
+                for fld in ("f", "L", "K", "navg"):
+                    if not np.array_equal(np.asarray(pb[fld]), np.asarray(p[fld])[j1:j2 + 1].astype(np.asarray(pb[fld]).dtype)):
+                        same = 0
+                        meta["analyzer_plan_differs_in"] = f"{fld} (band slice)"
+                if not all(np.array_equal(np.asarray(a_), np.asarray(b_)) for a_, b_ in zip(pb["D"], D[j1:j2 + 1])):
+                    same = 0
+                    meta["analyzer_plan_differs_in"] = "D (band slice)"
+        except BaseException as exc:
+            ok = 0
+            meta["analyzer_exception"] = f"(band) {type(exc).__name__}: {exc}"
     ev.append({"t": "built", "ok": ok, "same": same if ok else 0, "eqltf": eqltf})
     return {"meta": meta, "c": c, "ev": ev}
 
